@@ -196,6 +196,81 @@ def run(rep, tier, seed, replay):
                 rep.violation("oracle", ("the glob walk from a base that is a link to a directory loses %r, which the walk of the directory itself yields" % (missing[0][0],)) if missing else
                               ("the glob walk from a link base yields %r, which the walk of the directory does not" % (extra[0][0],) if extra else "order differs"), d, impl=c.impl[:300])
 
+    # ---- an INDEPENDENT reference for trees with directory links and mount points: the tree as recorded by the harness's
+    # own read_dir recursion (it follows links to directories that do not re-enter an ancestor). Under ReadTarget every recorded
+    # entry whose relative path the glob matches must be yielded ("never loses a match"), whatever file system the directory
+    # behind a link lives on; under ReadFile nothing beneath a link may be. The walk model is run on the same recording.
+    if replay is None or replay["input"].get("what") == "recorded-reference":
+        from walkgen import T
+        m = common.model()
+        trees = [
+            ("link to a directory on another file system", T("f:docs/readme.md", "x:a.md", "x:sub/b.md", "x:sub/c.txt", "l:data:@XDEV")),
+            ("link to a nested directory on another file system", T("f:top.md", "x:p/q/r.md", "x:p/s.txt", "d:in", "l:in/far:@XDEV/p")),
+            ("two links into the same directory on another file system", T("x:a.md", "x:k/b.md", "l:one:@XDEV", "l:two:@XDEV/k", "f:z.md")),
+            ("link to a directory on the same file system", T("f:docs/readme.md", "f:store/a.md", "f:store/sub/b.md", "l:data:store")),
+            ("chain of links across file systems", T("x:a.md", "x:sub/b.md", "l:hop:@XDEV/sub", "l:data:@XDEV", "f:here.md")),
+        ]
+        globs = ["**/*.md", "**", "*/sub/*.md", "data/**", "*/*", "**/sub/**"]
+        # (a glob whose invariant prefix names a link makes the link the walk root, which walkdir follows whatever the link
+        # behaviour: the listed finding K-WALK-ROOT-LINK; `data/**` is therefore walked with links read as targets only)
+        rr = [(lbl, tr, g, lk) for lbl, tr in trees for g in globs for lk in ("t", "f") if not (lk == "f" and g.startswith("data/"))]
+        if replay is not None:
+            rr = [(replay["input"]["label"], replay["input"]["tree"], replay["input"]["glob"], replay["input"]["link"])]
+        answers = h.ask(["W g - %s %s - - - %s" % (hx(g), lk, tr) for _l, tr, g, lk in rr])
+        rep.evaluations += len(rr)
+        mreqs, keep = [], []
+        for (lbl, tr, g, lk), ans in zip(rr, answers):
+            head, f = walklib.parse_answer(ans)
+            if not head.startswith("root="):
+                rep.stats["recorded-reference:" + head] += 1
+                continue
+            keep.append((lbl, tr, g, lk, f))
+            mreqs.append("W g %s %s %s - - - %s %s" % (f.get("base", "-"), hx(g), lk, f.get("root", "-"), f.get("rec", "-")))
+        manswers = m.ask(mreqs)
+        mm, counts = [], []
+        for (lbl, tr, g, lk, f) in keep:
+            root = unhx(f["root"])
+            rp = walklib.rec_paths(f.get("rec", "-"), root)
+            counts.append(len(rp))
+            for pth, kd, dep in rp:
+                mm.append("M %s %s" % (hx(g), hx(pth[len(root) + 1:])))
+        flat = h.ask(mm)
+        per_case, pos = [], 0
+        for cnt in counts:
+            per_case.append(flat[pos:pos + cnt])
+            pos += cnt
+        per_case = iter(per_case)
+        for (lbl, tr, g, lk, f), mans in zip(keep, manswers):
+            rep.traces += 1
+            inp = {"what": "recorded-reference", "label": lbl, "tree": tr, "glob": g, "link": lk}
+            mhead, mf = walklib.parse_answer(mans)
+            if mf.get("items") != f.get("items"):
+                rep.stats["correspondence-broken"] += 1
+                rep.violation("correspondence", "walk: ordered items of the real walk vs the walk model (trees with links across file systems)", inp, impl=(f.get("items") or "")[:300], model=(mf.get("items") or mhead)[:300])
+            root = unhx(f["root"])
+            got = {x[0] for x in walklib.ok_items(f.get("items"))}
+            behind = []
+            mres = iter(next(per_case))
+            for pth, kd, dep in walklib.rec_paths(f.get("rec", "-"), root):
+                matches = next(mres).startswith("match")
+                under_link = any(pth.startswith(b + "/") for b in behind)
+                if kd.startswith("l"):
+                    behind.append(pth)
+                if not matches:
+                    continue
+                if lk == "t" and pth not in got:
+                    rep.violation("oracle", "the glob walk (links read as their targets) loses %r, an entry of the recorded tree whose relative path the glob matches (%s)" % (pth[len(root) + 1:], lbl), inp, impl=(f.get("items") or "")[:300])
+                    break
+                if lk == "f" and under_link and pth in got:
+                    rep.violation("oracle", "the glob walk (links read as files) yields %r, which lies beneath a link (%s)" % (pth[len(root) + 1:], lbl), inp, impl=(f.get("items") or "")[:300])
+                    break
+                if lk == "f" and not under_link and pth not in got:
+                    rep.violation("oracle", "the glob walk loses %r, an entry of the recorded tree whose relative path the glob matches (%s)" % (pth[len(root) + 1:], lbl), inp, impl=(f.get("items") or "")[:300])
+                    break
+            else:
+                rep.stats["recorded-reference: every recorded match is yielded"] += 1
+                continue
+
     def ask(wit):
         a = walklib.case_from(wit["walk"])
         walklib.run_cases([a], with_model=False)
